@@ -19,7 +19,7 @@ def _one(d):
                                  timeout=timeout, meta=p["meta"])
     except BaseException as ex:  # recorder failure: machinery, reported by the caller
         return {"hdr": None, "ev": [], "err": f"{type(ex).__name__}: {ex}", "did": p["meta"]["did"]}
-    return {"hdr": t["hdr"], "ev": t["ev"]}
+    return {"hdr": t["hdr"], "ev": t["ev"], "sub": t.get("sub", [])}
 
 
 def record(descs, want=(), timeout=60.0, procs=None):
